@@ -1985,3 +1985,16 @@ TABLE["C07"] += [
     B("operator-arity-check-off-by-one", {"V6"},
       (IP + "classes.py", "        assert 0 <= len(args) < 2, \\", "        assert 0 <= len(args) <= 2, \\")),
 ]
+_VI_A = "                if type_list[0].strip() == 'size_t':\n                    method_suffix = '_' + name_list[1].strip()\n                    res += self._wrap_method(method=method,\n                                             cpp_class=cpp_class,\n                                             prefix=prefix,\n                                             suffix=suffix,\n                                             method_suffix=method_suffix)\n"
+TABLE["C03"] += [
+    B("values-insert-bound-only-in-its-special-form", {"A13"}, (PW, _VI_A, _VI_A + "                    continue\n")),
+    B("values-insert-ordinary-binding-only-for-size-t", {"A13"}, (PW, _VI_A, _VI_A + "                else:\n                    continue\n")),
+    B("submodule-memory-per-namespace-object", {"A4"},
+      (PW, "                    and module_var not in self._submodule_vars:\n                self._submodule_vars.append(module_var)", "                    and id(namespace) not in self._submodule_vars:\n                self._submodule_vars.append(id(namespace))")),
+    B("submodule-memory-keyed-by-the-last-name", {"A4"},
+      (PW, "                    and module_var not in self._submodule_vars:\n                self._submodule_vars.append(module_var)", "                    and namespace.name not in self._submodule_vars:\n                self._submodule_vars.append(namespace.name)")),
+]
+TABLE["C09"] += [
+    B("submodule-memory-per-namespace-object", {"W6"},
+      (PW, "                    and module_var not in self._submodule_vars:\n                self._submodule_vars.append(module_var)", "                    and id(namespace) not in self._submodule_vars:\n                self._submodule_vars.append(id(namespace))")),
+]
